@@ -259,6 +259,9 @@ def _run_hyp(col: Collector, stream: Stream, seed: int):
 
 # --------------------------------------------------------------------------- shrinking (structural, on JSON)
 
+SHRINK_STRINGS = True
+
+
 def _candidates(x):
     """Smaller variants of a JSON value, most aggressive first."""
     if isinstance(x, list):
@@ -280,7 +283,7 @@ def _candidates(x):
                 d[key] = c
                 yield d
     elif isinstance(x, str):
-        n = len(x)
+        n = len(x) if SHRINK_STRINGS else 0
         if n:
             k = n // 2
             while k >= 1:
@@ -476,6 +479,8 @@ def run_check(modname: str, tier: str, seed: int, replay: Optional[str] = None) 
     unattributed = buckets
 
     budget = 25.0 if tier == "quick" else 120.0
+    global SHRINK_STRINGS
+    SHRINK_STRINGS = bool(getattr(mod, "SHRINK_STRINGS", False))   # tag-like strings must not be mangled by default
     for sig, b in sorted(unattributed.items()):
         ln, case, detail = b["cases"][0]
 
